@@ -21,17 +21,31 @@ NoDupIdx(q) == \A a, b \in 1..Len(q) : a # b => q[a][2] # q[b][2]
 Bad(c, e) == [ok |-> FALSE, clause |-> c, exp |-> e]
 Good == [ok |-> TRUE, clause |-> "", exp |-> 0]
 
+\* The design model (IdAllocOps) picks the lowest free ID at or above a hint.  The property does not
+\* prescribe that choice, nor that released IDs are reused, nor the hint: a step of the real code is
+\* accepted when it is a step of the specification for SOME choice of a fresh positive ID, i.e.
+\*   - the ID handed out is positive and was not reserved,
+\*   - it is the wish when the wish was positive and not reserved,
+\*   - afterwards it is reserved, nothing else was released, and every live object's ID is reserved.
+\* The exact deterministic step is still what TLC explores in IdAlloc; exp shows it for diagnosis.
+
 \* --- IDMan used directly
 ManStep(r) ==
     LET pre == ManOf(r.pre) post == ManOf(r.post)
         e == IF r.a.op = "get" THEN Get(pre, r.a.d) ELSE Discard(pre, r.a.d)
-    IN  IF e.res # r.res THEN Bad("idman.result", e.res)
-        ELSE IF e.s.used # post.used THEN Bad("idman.used", e.s.used)
-        ELSE IF e.s.pos # post.pos THEN Bad("idman.hint", e.s.pos)
-        ELSE IF r.a.op = "get" /\ r.res < 1 THEN Bad("idman.positive", 1)
-        ELSE Good
+    IN  IF r.a.op = "get" THEN
+             IF r.res < 1 THEN Bad("idman.positive", e.res)
+             ELSE IF r.res \in pre.used THEN Bad("idman.result", e.res)
+             ELSE IF r.a.d >= 1 /\ r.a.d \notin pre.used /\ r.res # r.a.d THEN Bad("idman.wish", e.res)
+             ELSE IF ~(pre.used \cup {r.res} \subseteq post.used) THEN Bad("idman.used", e.s.used)
+             ELSE Good
+        ELSE IF ~(pre.used \ {r.a.d} \subseteq post.used) THEN Bad("idman.used", e.s.used)
+             ELSE IF ~(post.used \subseteq pre.used) THEN Bad("idman.used", e.s.used)
+             ELSE Good
 
 \* --- object life cycle of one kind
+LiveIds(st, m) == {st.objs[o].id : o \in LiveIn(st, m)}
+LReserved(st) == \A m \in DOMAIN st.man : LiveIds(st, m) \subseteq st.man[m].used
 LifeStep(r) ==
     LET pre == StOf(r.pre) post == StOf(r.post) a == r.a
         e == CASE a.op = "create" -> LCreate(pre, a.o, a.m, a.d)
@@ -40,10 +54,22 @@ LifeStep(r) ==
                [] a.op = "attach" -> LSetIn(pre, a.o, TRUE)
                [] a.op = "drop"   -> LDrop(pre, a.o)
                [] a.op = "forget" -> LForget(pre, a.o)
+        o == IF a.op = "copy" THEN a.p ELSE a.o
+        new == post.objs[o]
     IN  IF ~LUnique(post) THEN Bad("life.unique", e.s.objs)
         ELSE IF ~LPositive(post) THEN Bad("life.positive", e.s.objs)
-        ELSE IF e.s.objs # post.objs THEN Bad("life.ids", e.s.objs)
-        ELSE IF e.s.man # post.man THEN Bad("life.allocator", e.s.man)
+        \* every other object is untouched; the object itself is as the specification says,
+        \* up to which fresh ID it was given
+        ELSE IF \E x \in DOMAIN post.objs \ {o} : post.objs[x] # pre.objs[x] THEN Bad("life.ids", e.s.objs)
+        ELSE IF a.op \in {"create", "copy"} /\
+                (new.m # a.m \/ ~new.inmap \/ new.id \in pre.man[a.m].used
+                 \/ (a.d >= 1 /\ a.d \notin pre.man[a.m].used /\ new.id # a.d)) THEN Bad("life.ids", e.s.objs)
+        ELSE IF a.op \notin {"create", "copy"} /\ new # e.s.objs[o] THEN Bad("life.ids", e.s.objs)
+        \* no live object's ID has been given back; other maps' allocators only ever shrink by
+        \* the dropped object's own ID
+        ELSE IF ~LReserved(post) THEN Bad("life.allocator", e.s.man)
+        ELSE IF \E m \in DOMAIN post.man : ~((pre.man[m].used \ {pre.objs[o].id}) \subseteq post.man[m].used)
+             THEN Bad("life.allocator", e.s.man)
         ELSE Good
 
 \* --- a whole document parsed: ids listed per kind in document order
